@@ -463,6 +463,63 @@ def GOpts.wire (o : GOpts) : GOpts :=
     | some _ => some none
     | none => none⟩
 
+/-! ### the `Options` map `dhcpv4.FromBytes` builds, with the nil-ness of its values
+
+The packet codec model (`Opts`, `optsLoop`, `dec4`) identifies nil and empty
+option values; the accessors branch on nil-ness.  The loop is therefore
+modelled a second time on `GOpts`, statement for statement, with Go's `append`
+on a possibly nil slice.  `DhcpProofs/Lemmas/V4ValDecoded.lean` proves that it
+builds exactly `Opts.toG` of what `optsLoop` builds: a key whose instances are
+all zero-length holds a NIL slice (`append(nil, empty...)` is nil), every other
+key its non-empty concatenation — decoding never yields an empty non-nil value. -/
+
+/-- `append(x, d...)` for a possibly nil `x`: appending nothing to nil leaves nil -/
+def gAppend (x : GoBytes) (d : Bytes) : GoBytes :=
+  match x with
+  | none => goBuf d
+  | some a => some (a ++ d)
+
+/-- `o[code] = append(o[code], data...)` -/
+def GOpts.app (o : GOpts) (c : UInt8) (d : Bytes) : GOpts :=
+  ⟨fun k => if k = c then some (gAppend (o.get c) d) else o.f k⟩
+
+/-- the `for buf.Len() >= 1` loop of `fromBytesCheckEnd` (as `optsLoop`) on the
+map with nil-ness -/
+def optsLoopG : Nat → Lexer → GOpts → Option (GOpts × Bool)
+  | 0, _, o => some (o, false)
+  | fuel + 1, l, o =>
+    if l.len ≥ 1 then
+      let (code, l) := l.read8
+      if code = optPad then optsLoopG fuel l o
+      else if code = optEnd then some (o, true)
+      else
+        let (length, l) := l.read8
+        match l.consume length.toNat with
+        | (none, _) => none
+        | (some d, l) =>
+          if l.err then none else optsLoopG fuel l (o.app code d)
+    else some (o, false)
+
+/-- `Options.fromBytesCheckEnd(data, checkEnd)` (as `optsFromBytes`) on the map with nil-ness -/
+def optsFromBytesG (o : GOpts) (data : Bytes) (checkEnd : Bool) : Option GOpts :=
+  if data.length = 0 then some o
+  else
+    match optsLoopG (data.length + 1) (Lexer.new data) o with
+    | none => none
+    | some (o', endSeen) => if !endSeen && checkEnd then none else some o'
+
+/-- the `Options` of the packet `dhcpv4.FromBytes(q)` returns (it returns one
+exactly when `dec4 q = .ok _`): the option loop run on what follows the
+240-octet header and cookie -/
+def decOptsG (q : Bytes) : Option GOpts := optsFromBytesG GOpts.empty (q.drop 240) true
+
+/-- an `Opts` value read as the Go map a decoder leaves behind: an empty value is
+a nil slice under its key -/
+def Opts.toG (o : Opts) : GOpts := ⟨fun c => (o.f c).map goBuf⟩
+
+/-- `net.IPv4(a, b, c, d)`: the 16-byte IPv4-mapped form -/
+def ipv4 (a b c d : UInt8) : Bytes := zeros 10 ++ [255, 255, a, b, c, d]
+
 /-! ### The typed accessors of `*DHCPv4` -/
 namespace Acc
 
